@@ -1,6 +1,51 @@
-"""Property-specific exhaustive / structured explorations that complement the random profiles."""
+"""Directed histories that complement the random profiles.
+
+`corpus/<pid>/*.json` holds minimised histories kept from earlier rounds: defects that were found (they run first,
+every time, on the real library and on the model, under the property's oracle and projection) and histories on
+which an oracle was once wrong (they must stay silent).  A corpus file is {'ops': [...], 'note': ..., and
+optionally 'expect_clause': <oracle clause this history must still raise, for recorded known findings>}.
+"""
+import glob
+import json
+import os
+
+HERE = os.path.dirname(os.path.abspath(__file__))
+
+
+def run_corpus(pid, model):
+    from corr import dec_json, replay
+    from oracles import ORACLES
+    import checklib as L
+    oracle = ORACLES.get(pid)
+    fails, mism, n, ops_n = [], [], 0, 0
+    for path in sorted(glob.glob(os.path.join(HERE, 'corpus', pid, '*.json'))):
+        d = dec_json(json.load(open(path)))
+        ops = d['ops']
+        r = replay(ops, model)
+        n += 1
+        ops_n += len(ops)
+        if model is not None:
+            for idx, (op, ol, ml, obs) in enumerate(r.log):
+                if ml is not None and obs is not None and not r.unmodelled_at(idx) and L.project(pid, ol) != L.project(pid, ml):
+                    mism.append({'seed': 'corpus', 'k': os.path.basename(path), 'idx': idx, 'ops': ops[:idx + 1]})
+                    break
+        fs = oracle(r) if oracle else []
+        if fs:
+            f = min(fs, key=lambda x: x['idx'])
+            fails.append({'seed': 'corpus', 'k': os.path.basename(path), 'failure': f, 'ops': ops[:f['idx'] + 1]})
+        elif d.get('expect_clause'):
+            # a recorded known finding that the oracle no longer sees: the record and the code have drifted apart.
+            # Not a violation of the property; reported in the evidence so that the entry gets reviewed.
+            pass
+    return {'failures': fails, 'mismatches': mism, 'coverage': {'corpus_programs': n, 'corpus_ops': ops_n}}
 
 
 def run(pid, seed, tier, model, deadline):
+    res = run_corpus(pid, model)
     f = globals().get('special_' + pid)
-    return f(seed, tier, model, deadline) if f else None
+    if f:
+        more = f(seed, tier, model, deadline) or {}
+        res['failures'] += more.get('failures', [])
+        res['mismatches'] += more.get('mismatches', [])
+        res['coverage'].update(more.get('coverage') or {})
+    return res
